@@ -291,3 +291,7 @@ def run(facts, rep, tier):
     c04.rule_r4(facts, rep, "C13-R6")
     rep.rule("C13-R7", "Ranges come from source positions: both ends of an inline range are looked up in the line table independently; the destination range of a link ends at the link's source end.")
     rule_r7(facts, rep)
+    rep.rule("C13-R8", "The link under the cursor is searched in every block and inline that can hold one: each variant of DocumentBlock / DocumentInline whose payload has nested blocks / items / "
+             "inlines hands them out in child_blocks / child_inlines (audited: table cells).")
+    from . import children
+    children.rule_child_tables(facts, rep, "C13-R8")
